@@ -108,8 +108,16 @@ class FuncView:
         c = self.cfg
         tid = test_node.id
         tids = set(self.ids(targets))
+        if not tids or not tids <= self._reachable_all():
+            return False    # an unreachable node is not "guarded" by anything (no vacuous truth)
         without = c.reachable(c.entry.id, removed_edges=c.edges_from(tid, label))
         return not (tids & without)
+
+    def _reachable_all(self):
+        r = self.__dict__.get("_reach_all")
+        if r is None:
+            r = self._reach_all = self.cfg.reachable(self.cfg.entry.id)
+        return r
 
     def always_then(self, starts, vias, ends=None, skip_exc=False):
         """every path from each start to `ends` (default normal exit) passes one of vias"""
